@@ -38,6 +38,8 @@ def write_errors_to_yaml(container, yaml_doc):
         # get the relevant error section for the current axis, creating it if necessary
         _yaml_section = yaml_doc.setdefault(_yaml_error_section_for_axis[_err_axis], [])
 
+        _is_enabled = _err_dict.get("enabled", True)
+
         # -- check for relative errors
         _is_relative = _err_obj.relative
         if _is_relative:
@@ -86,6 +88,9 @@ def write_errors_to_yaml(container, yaml_doc):
                 raise TypeError("Unknown error matrix type '{}'. " "Valid: 'correlation' or 'covariance'.")
         else:
             raise TypeError("No representation for error type {} " "implemented!".format(type(_err_obj)))
+
+        if not _is_enabled:
+            _yaml_section[-1]["enabled"] = False
 
     return yaml_doc
 
@@ -174,6 +179,11 @@ def process_error_sources(container_obj, yaml_doc):
 
         # add error to data container
         container_obj = add_error_to_container(_err_type, container_obj, **_add_kwargs)
+        if not _err.get("enabled", True):
+            _err_name = _add_kwargs["name"]
+            if _err_name is None:
+                _err_name = list(container_obj._error_dicts.keys())[-1]  # the source that has just been added
+            container_obj.disable_error(_err_name)
 
     return container_obj, yaml_doc
 
